@@ -168,7 +168,10 @@ pub fn teardown() -> impl Strategy<Value = Teardown> {
 /// A PCT schedule: initial priority order and up to `max_changes` change
 /// points among the first `horizon` scheduling points.
 pub fn pct(max_changes: usize, horizon: u16) -> impl Strategy<Value = crate::sched::Pct> {
-    (any::<u16>(), proptest::collection::vec(0..horizon, 0..=max_changes)).prop_map(|(order, changes)| crate::sched::Pct { order, changes })
+    // The programs are short (tens of points up to a few hundred): most
+    // change points are placed early, where every program still runs.
+    let step = prop_oneof![4 => 0..32u16.min(horizon), 3 => 0..96u16.min(horizon), 1 => 0..horizon];
+    (any::<u16>(), proptest::collection::vec(step, 0..=max_changes)).prop_map(|(order, changes)| crate::sched::Pct { order, changes })
 }
 
 /// Half of the scheduled cases follow a PCT schedule, half a choice tape.
